@@ -150,6 +150,8 @@ def run(ck):
     weight_rules(ck)
     # the mapping object that supplies the weights (normalisation included) is read with the same lints
     shared.no_live_view_in_mutating_loop(ck, ['vermouth/map_parser.py'])
+    shared.truthy_zero(ck, ['vermouth/processors/average_beads.py', 'vermouth/processors/do_mapping.py', 'vermouth/map_parser.py', 'vermouth/map_input.py'])
+    shared.no_new_state(ck, ['vermouth/map_parser.py', 'vermouth/map_input.py'])
     # the weight table stored on the particle is the table itself (null weights included), not a filtered copy
     shared.runs_every_molecule(ck, 'vermouth/processors/average_beads.py', 'DoAverageBead', 'MPT-every-molecule')
     ck.assume('the arithmetic of numpy.average and rigid-motion equivariance are not decided')
